@@ -303,6 +303,27 @@ def load_known(prop):
     return out
 
 
+def ops_consecutive(entry):
+    """`Bw.Diff.Consec (new.length) 0 ops` for one shipped (old, new, ops) entry"""
+    n, cur = len(entry.get("new", "")), 0
+    for op in entry.get("ops", []):
+        k = op[0]
+        if k == "equal":
+            if op[2] != cur: return False
+            cur += op[3]
+        elif k == "delete":
+            if op[3] != cur or cur > n: return False
+        elif k == "insert":
+            if op[2] != cur or op[3] < 1 or cur + op[3] > n: return False
+            cur += op[3]
+        elif k == "replace":
+            if op[3] != cur or op[4] < 1 or cur + op[4] > n: return False
+            cur += op[4]
+        else:
+            return False
+    return True
+
+
 def correspondence(rep, rows, component, nontrivial, opts=None, known=None, oracle=None):
     """diff impl vs model on every row; disagreement on a property observable = failing input.
     `oracle(case, impl)` is an independent ground-truth check on the implementation's outcome."""
@@ -337,6 +358,11 @@ def correspondence(rep, rows, component, nontrivial, opts=None, known=None, orac
                     diffs = diffs + [("changes.sorted-ranges", {path: lc}, "changed ranges of a line are non-inverted, ordered and disjoint")]
                 if rs:
                     rep.count(f"{component}:ranges-sorted-checked")
+        # `C02.line_diff_sorted` derives the sorted-ranges hypothesis from "similar's ops are consecutive over the new line".
+        # That premise is NOT a contract of `similar` (for dissimilar pairs it reports a deletion's new index after the
+        # following equal run): it is only counted here; the hypothesis itself is checked directly on every outcome above.
+        for e in case.get("ops") or []:
+            rep.count(f"{component}:ops-" + ("consecutive" if ops_consecutive(e) else "not-consecutive"))
         nt = nontrivial(case, impl, model)
         if nt:
             rep.nontrivial.add(hashlib.sha1(canon({k: v for k, v in case.items() if k != "meta"}).encode()).hexdigest())
